@@ -49,7 +49,13 @@ class Handler:
         if name == "<indirect>":
             # entropy callback(user, buf, size): fills buf with size fresh bytes, returns an opaque count
             sz = ex.subst(p, args[2]).const() if not is_word(args[2]) else None
-            p.events.append(("CALL", n, "<callback>", tuple(repr(ex.subst(p, a)) if not is_word(a) else "data" for a in args), None, I.id))
+            pre = None
+            if sz and not is_word(args[1]) and ex.subst(p, args[1]).base()[0] is not None:
+                before = len(p.events)
+                bits = ex.load(p, args[1], sz, None)          # what the buffer holds when the source is asked (it may deliver fewer bytes)
+                p.events = p.events[:before] + [e_ for e_ in p.events[before:] if e_[0] not in ("in", "in-sym")]
+                pre = tuple(tuple(bits[8 * k_: 8 * k_ + 8]) for k_ in range(sz))
+            p.events.append(("CALL", n, "<callback>", tuple(repr(ex.subst(p, a)) if not is_word(a) else "data" for a in args), pre, I.id))
             if sz:
                 ex.store(p, args[1], [b for k in range(sz) for b in gf2.sym_word(("ENTROPY", n, k), 8)], sz, None)
             return Lf.s(("cbret", n))
@@ -687,6 +693,9 @@ def check_pbkdf2(ck_ob, mod, label):
                 after = rest[1:]
             elif rn[:3] == ["tinyjambu_hmac_reinit", "tinyjambu_hmac_update", "tinyjambu_hmac_finalize"]:
                 seen.add("count>1")
+                lo_c = ex._range(p, Lf.s(A["count"]))[0]
+                c("F", lo_c is not None and lo_c >= 2, "chain-only-above-1(%s)" % ("full" if full else "last"), "the second PRF (U2) runs only when count > 1: counts 0 and 1 give T = U1",
+                  "U2 is computed on a path where the iteration count may be %s: a count of 0 (or 1) no longer behaves as 1" % (lo_c,))
                 okU2 = rest[0][3] == (st, PW, PL) and rest[1][3] == (st, T, "32") and rest[1][4] == mac1 and rest[2][3][:3] == (st, PW, PL) and rest[2][3][3].startswith(("alloca", "glob"))
                 c("F", okU2, "U2(%s)" % ("full" if full else "last"), "U2 = PRF(P, U1): reinit(P); update(U1, 32); finalize -> U", "second PRF differs: %s" % [(e[2], e[3][1:]) for e in rest[:3]])
                 mac2 = bytes_sym("MAC", rest[2][1], 32)
@@ -850,7 +859,7 @@ def check_df(c, ev, k, marker, vbytes, inptr, inlen, outptr, indata, tag, ST):
     return k + 6, e[4]
 
 
-def check_prng(ck_ob, mod, label):
+def check_prng(ck_ob, mod, label, generate=True):
     ST = ("arg", 0)
     fld = {m["name"]: m for m in mod.composites["tinyjambu_prng_state_p_t"]["members"]}
     V, C, CNT, LIM = fld["V"]["offset"], fld["C"]["offset"], fld["reseed_counter"]["offset"], fld["reseed_limit"]["offset"]
@@ -882,6 +891,9 @@ def check_prng(ck_ob, mod, label):
         cb = ev[0]
         ent = bytes_sym("ENTROPY", cb[1], 32)
         c("SEQ", cb[3][1] == VP and cb[3][2] == "32", tag + "-entropy", "32 bytes of entropy requested into V", "entropy request is %s" % (cb[3],))
+        okpre = cb[4] is not None and all(gf2.is_const(list(b_)) == 0 for b_ in cb[4])
+        c("DEP", okpre, tag + "-prefill", "the seed buffer is all zero when the source is asked: a short delivery leaves a defined value, independent of what the object held before",
+          "the seed buffer is not zeroed before the entropy request: after a short or failed delivery the generator depends on the previous contents of the state object")
         r = check_df(c, ev, 1, 0xFF, ent, repr(Lf.s(("arg", 3))), repr(Lf.s(("n", 4))), VP, None, tag + "-V", ST)
         if r:
             k, fin = r
@@ -901,6 +913,9 @@ def check_prng(ck_ob, mod, label):
         cb = ev[0]
         ent = bytes_sym("ENTROPY", cb[1], 32)
         c("SEQ", cb[3][1] == CP and cb[3][2] == "32", "reseed-entropy", "32 bytes of entropy requested into C", "entropy request is %s" % (cb[3],))
+        okpre = cb[4] is not None and tuple(cb[4]) == tuple(vold)
+        c("DEP", okpre, "reseed-prefill", "C is pre-loaded with V when the source is asked: a short delivery is mixed with the old state",
+          "the entropy buffer is not pre-loaded with V before the request: %s" % (first_byte_diff(cb[4], vold) if cb[4] is not None else "contents unknown"))
         r = check_df(c, ev, 1, 0x01, vold, CP, "32", VP, ent, "reseed-V", ST)
         if r:
             r2 = check_df(c, ev, r[0], 0x00, bytes_sym("DIGEST", r[1][1], 32), "0", "0", CP, None, "reseed-C", ST)
@@ -916,6 +931,8 @@ def check_prng(ck_ob, mod, label):
         cnt0 = Lf.s(("fld", ST, CNT, 0))
         c("SEQ", p.lfmem.get((ST, CNT, 4)) == cnt0.add(Lf.c(1)), "feed-counter", "reseed_counter + 1", "reseed_counter after feed is %s" % p.lfmem.get((ST, CNT, 4)))
         n += 7
+    if not generate:
+        return n
     # ---- generate: generic block
     f, ex, ps, c = mk("tinyjambu_prng_generate")
     if not f.loops:
